@@ -206,18 +206,31 @@ def run(args, seed, t_start):
     if n_oblig == 0 and not r.undecided:
         vac_problems.append('no obligations were generated for %s' % prop)
 
+    # ---- bounded stand-in: scenario sets on the real code against the simulated adbd (labelled bounded, never counted as proved)
+    sim = run_sim(prop, tier)
+
     # ---- report -----------------------------------------------------------------------------------
     exit_code = 0
     for k, name, worst in known_hits:
         print('KNOWN-FINDING: property=%s %s -- %s [%s]' % (prop, k.get('id', ''), k.get('what', ''), name))
     replay_paths = []
+    sim_fail = (sim or {}).get('failures') or []
     if violations:
         from pyvc import replay
         for name, q in violations:
-            path, confirmed = replay.write_and_run(prop, name, q, qmap.get(q), res.get(q), r, per_oblig)
+            path, confirmed = replay.write_and_run(prop, name, q, qmap.get(q), res.get(q), r, per_oblig, sim_failure=sim_fail[0] if sim_fail else None)
             suffix = '' if confirmed else ' no-failing-input-found'
             print('VIOLATION property=%s replay=%s obligation=%s%s' % (prop, path, name, suffix))
             replay_paths.append(path)
+        exit_code = 1
+    elif sim_fail:
+        # no obligation was refuted (some may be undecided), but the bounded stand-in found a concrete failing input on the real code
+        from pyvc import replay
+        for k, f in enumerate(sim_fail[:3]):
+            path = replay.write_sim_failure(prop, k, f)
+            print('VIOLATION property=%s replay=%s obligation=bounded-stand-in/%s' % (prop, path, re.sub(r'\s+', '-', f['what'])[:120]))
+            replay_paths.append(path)
+        violations = [('bounded-stand-in', None)] * min(3, len(sim_fail))
         exit_code = 1
     if (undecided or r.undecided) and exit_code == 0:
         exit_code = 2
@@ -237,7 +250,7 @@ def run(args, seed, t_start):
 
     if not args.no_evidence and not args.only:
         write_evidence(prop, tier, seed, r, per_oblig, n_oblig - n_known, discharged, violations, undecided, known_hits, backends,
-                       solver_seconds, wall, head, dirty, cover_stats, lemma_names, exit_code)
+                       solver_seconds, wall, head, dirty, cover_stats, lemma_names, exit_code, sim)
     return exit_code
 
 
@@ -256,8 +269,34 @@ def trusted_base(r):
     return out
 
 
+def run_sim(prop, tier):
+    """The bounded scenario set of the property on the real code (same tree as the obligations), under /venv/bin/python."""
+    import subprocess
+    simdir = os.path.join(VERIF, 'sim')
+    if not os.path.isdir(simdir):
+        return None
+    os.makedirs(os.path.join(VERIF, 'replay'), exist_ok=True)
+    out = os.path.join(VERIF, 'replay', '%s-sim.json' % prop)
+    try:
+        os.unlink(out)
+    except OSError:
+        pass
+    env = dict(os.environ)
+    env.setdefault('PYVC_REPO', '/repo')
+    env['PYTHONPATH'] = VERIF
+    budget = 'thorough' if tier == 'thorough' else 'quick'
+    try:
+        p = subprocess.run(['/venv/bin/python', '-m', 'sim.run', prop, '--budget', budget, '--out', out], cwd=VERIF, env=env, capture_output=True, text=True,
+                           timeout=400 if budget == 'quick' else 3000)
+    except subprocess.TimeoutExpired:
+        return {'scenarios_run': 0, 'failures': [], 'note': 'bounded stand-in timed out'}
+    if not os.path.exists(out):
+        return {'scenarios_run': 0, 'failures': [], 'note': 'bounded stand-in did not run: ' + (p.stderr or p.stdout)[-300:]}
+    return json.load(open(out))
+
+
 def write_evidence(prop, tier, seed, r, per_oblig, n_oblig, discharged, violations, undecided, known_hits, backends, solver_seconds, wall,
-                   head, dirty, cover_stats, lemma_names, exit_code):
+                   head, dirty, cover_stats, lemma_names, exit_code, sim=None):
     samples = []
     for rec in per_oblig[:]:
         if len(samples) >= 6:
@@ -281,7 +320,9 @@ def write_evidence(prop, tier, seed, r, per_oblig, n_oblig, discharged, violatio
             'covers': dict(cover_stats),
             'paths_explored': r.stats['paths'],
             'per_obligation': [{k: v for k, v in rec.items() if k in ('name', 'queries', 'seconds', 'backend', 'result', 'kind', 'known_finding')} for rec in per_oblig],
-            'bounded_standins': pm.get('bounded_standins', []),
+            'bounded_standins': [{'what': 'scenario sets on the real code against the simulated adbd (sim/)', 'scenarios_run': (sim or {}).get('scenarios_run', 0),
+                                  'failures': len((sim or {}).get('failures') or []), 'bounds': (sim or {}).get('bounds', ''), 'note': (sim or {}).get('note', ''),
+                                  'counted_as_proved': False}] if sim is not None else [],
             'known_findings_matched': [{'id': k.get('id'), 'obligation': n} for k, n, _ in known_hits],
             'source_sha256': r.sources.hashes(),
             'front_end_dropped': {'async_normalisation': r.sources.dropped(), 'also': 'docstrings, comments, _LOGGER calls, exception-message arguments'},
